@@ -304,8 +304,8 @@ pub fn uf_powi(x: TwoFloat, n: i32) -> TwoFloat {
 }
 
 //@ id=C10 tier=quick to=900 cfg=std exh=1 stub=1 stubs="TwoFloat::powi -> recording UF" desc="Float::powi, FloatCore::powi and Pow<i8|i16|i32|u8|u16> (value and reference forms) call TwoFloat::powi once with the argument unchanged and the exponent sign/zero-extended to i32, and return its result; all x and exponents"
-#[cfg_attr(kani, kani::proof)]
-#[cfg_attr(kani, kani::stub(twofloat::TwoFloat::powi, uf_powi))]
+#[cfg_attr(all(kani, feature = "stubs"), kani::proof)]
+#[cfg_attr(all(kani, feature = "stubs"), kani::stub(twofloat::TwoFloat::powi, uf_powi))]
 pub fn c10_powi_entry_points() {
     let x = any_tf();
     let n = any_i32();
@@ -330,9 +330,9 @@ pub fn c10_powi_entry_points() {
 }
 
 //@ id=C10 tier=quick to=900 cfg=std exh=1 stub=1 stubs="&TwoFloat*&TwoFloat, &TwoFloat+&TwoFloat -> UFs" desc="Float::mul_add(self,a,b) is bit-identical to self*a+b for all operands and every pure function in place of the two operators"
-#[cfg_attr(kani, kani::proof)]
-#[cfg_attr(kani, kani::stub(<&twofloat::TwoFloat as core::ops::Mul<&twofloat::TwoFloat>>::mul, crate::uf::uf_mul_tt))]
-#[cfg_attr(kani, kani::stub(<&twofloat::TwoFloat as core::ops::Add<&twofloat::TwoFloat>>::add, crate::uf::uf_add_tt))]
+#[cfg_attr(all(kani, feature = "stubs"), kani::proof)]
+#[cfg_attr(all(kani, feature = "stubs"), kani::stub(<&twofloat::TwoFloat as core::ops::Mul<&twofloat::TwoFloat>>::mul, crate::uf::uf_mul_tt))]
+#[cfg_attr(all(kani, feature = "stubs"), kani::stub(<&twofloat::TwoFloat as core::ops::Add<&twofloat::TwoFloat>>::add, crate::uf::uf_add_tt))]
 pub fn c10_mul_add() {
     let x = any_tf();
     let a = any_tf();
@@ -374,8 +374,8 @@ pub fn c10_trait_constants_and_predicates() {
 }
 
 //@ id=C10 tier=quick to=900 cfg=std exh=1 stub=1 stubs="TwoFloat::is_valid -> UF" desc="Float/FloatCore::is_finite is is_valid(), and Float/FloatCore/Signed::signum return TwoFloat::signum's result (is_valid uninterpreted), every bit pattern"
-#[cfg_attr(kani, kani::proof)]
-#[cfg_attr(kani, kani::stub(twofloat::TwoFloat::is_valid, crate::uf::uf_is_valid))]
+#[cfg_attr(all(kani, feature = "stubs"), kani::proof)]
+#[cfg_attr(all(kani, feature = "stubs"), kani::stub(twofloat::TwoFloat::is_valid, crate::uf::uf_is_valid))]
 pub fn c10_trait_validity_based() {
     use num_traits::float::FloatCore;
     let x = any_tf();
@@ -387,8 +387,8 @@ pub fn c10_trait_validity_based() {
 }
 
 //@ id=C10 tier=quick to=900 cfg=std exh=1 stub=1 stubs="&TwoFloat-&TwoFloat -> UF, TwoFloat::abs real" desc="Float::abs_sub and Signed::abs_sub are |self - other| built from the same subtraction, all operands"
-#[cfg_attr(kani, kani::proof)]
-#[cfg_attr(kani, kani::stub(<&twofloat::TwoFloat as core::ops::Sub<&twofloat::TwoFloat>>::sub, crate::uf::uf_sub_tt))]
+#[cfg_attr(all(kani, feature = "stubs"), kani::proof)]
+#[cfg_attr(all(kani, feature = "stubs"), kani::stub(<&twofloat::TwoFloat as core::ops::Sub<&twofloat::TwoFloat>>::sub, crate::uf::uf_sub_tt))]
 pub fn c10_abs_sub() {
     let x = any_tf();
     let y = any_tf();
@@ -409,8 +409,8 @@ pub fn uf_sin_cos(x: TwoFloat) -> (TwoFloat, TwoFloat) {
 }
 
 //@ id=C10 tier=quick to=600 cfg=std exh=1 stub=1 stubs="TwoFloat::sin_cos -> UF" desc="Float::sin_cos returns TwoFloat::sin_cos's pair unchanged"
-#[cfg_attr(kani, kani::proof)]
-#[cfg_attr(kani, kani::stub(twofloat::TwoFloat::sin_cos, uf_sin_cos))]
+#[cfg_attr(all(kani, feature = "stubs"), kani::proof)]
+#[cfg_attr(all(kani, feature = "stubs"), kani::stub(twofloat::TwoFloat::sin_cos, uf_sin_cos))]
 pub fn c10_sin_cos_entry() {
     let x = any_tf();
     let (s, c) = Float::sin_cos(x);
